@@ -341,6 +341,11 @@ class WorkflowRecovery:
                             )
                         )
                 elif not_started_tasks and stage.start_time is not None:
+                    if any(not before.status.is_complete for before in stage.before_stages()):
+                        # The stage is still waiting for its before-stages: the last of them
+                        # to complete starts the first task (ContinueParentStage). Starting
+                        # it here would run the stage's tasks ahead of its before-stages.
+                        continue
                     first_task = not_started_tasks[0]
                     # Mirror the running-task guard: skip if a message for this
                     # task is already queued, so a recovery sweep overlapping
